@@ -294,8 +294,11 @@ class Gen:
         if r.random() < 0.3:
             self.outs.append({"type": "enum", "name": "en", "values": ["EA", "EB", "EC"]})
         for i in range(r.randint(0, 2)):
-            self.outs.append({"type": "str", "name": "s%d" % i, "size": r.choice([2, 3, 4, 6, 8, 16]), "null": r.random() < 0.7,
-                              "default": None if r.random() < 0.8 else b"a"})
+            size = r.choice([2, 3, 4, 6, 8, 16] + ([255, 256, 257] if getattr(self.p, "big_strings", False) else []))
+            dflt = None
+            if r.random() < 0.25:      # defaults of every length around the capacity (too long ones must be rejected)
+                dflt = bytes(r.choice(b"abc\x00\xff") for _ in range(r.choice([0, 1, 1, max(0, size - 2), size - 1, size, size + 1]) if size < 64 else r.choice([1, 3])))
+            self.outs.append({"type": "str", "name": "s%d" % i, "size": size, "null": r.random() < 0.7, "default": dflt})
         for i in range(r.randint(0, 2)):
             self.hooks.append("h%d" % i)
         for i in range(r.randint(0, 2)):
@@ -436,6 +439,9 @@ class Gen:
             v = r.choice(strs)
             sz = [o for o in self.outs if o["name"] == v][0]
             eff = sz["size"] - (1 if sz["null"] else 0)
+            if eff < 40 and r.random() < 0.2:       # constants right at / just over the capacity
+                n = r.choice([eff, eff, eff + 1])
+                return ("assigns", v, bytes(r.choice(CONTENT) for _ in range(n)))
             return ("assigns", v, self.lit_bytes(r.randint(0, max(0, min(eff, 3)))) if eff > 0 else b"")
         if k == "delete":
             return ("delete", r.choice(strs))      # (an `s = "";` assignment becomes a delete at -O2)
